@@ -283,7 +283,10 @@ class FStringNode:
 
 def _close_fstring_if_necessary(fstring_stack, string, line_nr, column, additional_prefix):
     for fstring_stack_index, node in enumerate(fstring_stack):
-        lstripped_string = string.lstrip()
+        # Only strip what Python itself treats as whitespace within a line;
+        # other characters that str.lstrip() removes (e.g. \x0b, \x1c or
+        # non-breaking spaces) are not allowed to end up in a prefix.
+        lstripped_string = string.lstrip(' \t\f')
         len_lstrip = len(string) - len(lstripped_string)
         if lstripped_string.startswith(node.quote):
             token = PythonToken(
